@@ -578,5 +578,105 @@ theorem served_next (E : TimedEnv P) (tt : List T) (n i : Nat) (a : T) (A G g of
   · rw [c2] at hs; exact absurd hs (by decide)
   · exact absurd c6 hs6
 
+/-! ## a pass that (re-)positions the index: start, reload, after a reset -/
+
+/-- `bisect.bisect_left(tt, q)` on the times of day: everything before the result is smaller, everything from it
+    on is not -/
+def BisectOk (P : MtPrims σ T DT B) (tt : List T) (q : T) : Prop :=
+  P.bisectLeft tt q ≤ tt.length ∧
+  (∀ i x, tt[i]? = some x → i < P.bisectLeft tt q → todS P x < todS P q) ∧
+  (∀ i x, tt[i]? = some x → P.bisectLeft tt q ≤ i → todS P q ≤ todS P x)
+
+theorem head_reload (L : MtLocals T DT) (w : σ) (h : L.v2 = true) :
+    mtStep P L w = mtStep P ({ L with v2 := false, v4 := P.sortedUnion P.set24 (P.alarmKeys w), v5 := (P.sortedUnion P.set24 (P.alarmKeys w)).length, v6 := none } : MtLocals T DT) w := by
+  rw [head_is_ref, head_is_ref]; unfold refHead; simp [h]
+
+/-- **a pass with an unknown index** (no reload pending): ONE reading `r`; the index is positioned at the first
+    entry of the timetable not before the time of day of `r`, i.e. the pass is heading for the first instant
+    `A ≥ r` whose time of day is in the timetable (`A ≤ r + G`); all clients are recalculated with `r`; then the
+    sleep loop as in `pass_known` (the recalculations add `C` to the bound) -/
+theorem pass_resync (E : TimedEnv P) (M : Rat) (tt : List T) (n : Nat) (g G : Rat)
+    (L : MtLocals T DT) (w : σ) (hGM : G ≤ M) (h1 : L.v1 = false) (h2 : L.v2 = false) (h6 : L.v6 = none)
+    (h4 : L.v4 = tt) (h5 : L.v5 = n) (hlen : tt.length = n) (hov : ttOk ≤ L.v0)
+    (ok : TTok P tt g G) (hb : BisectOk P tt (P.timeOf (P.dtnow w).1))
+    (hG : G < secPerDay / 2)
+    (hwin : 2 * E.L + E.W + E.C + 8 * E.J < secPerDay / 2) :
+    ∃ idx a A, ∃ kA : Int, idx < n ∧ tt[idx]? = some a ∧ A = (kA : Rat) * secPerDay + todS P a ∧
+      E.abs (P.dtnow w).1 ≤ A ∧ A ≤ E.abs (P.dtnow w).1 + G ∧
+      wp E M (PassOutcome E tt n idx a A G (E.off w) (A + 2 * E.L + E.W + E.C) 8) (mtStep P L w) := by
+  have hn : 0 < n := by rw [← hlen]; exact ok.pos
+  set r := (P.dtnow w).1 with hr
+  set q := P.timeOf r with hq
+  obtain ⟨b1, b2, b3⟩ := hb
+  set j := P.bisectLeft tt q with hj
+  have hidx : j % n < tt.length := by rw [hlen]; exact Nat.mod_lt _ hn
+  obtain ⟨a, ha⟩ : ∃ a, tt[j % n]? = some a := ⟨tt[j % n], List.getElem?_eq_getElem hidx⟩
+  have hd : secPerDay = (86400 : Rat) := rfl
+  have qr := E.tod_range q
+  have ar := E.tod_range a
+  have hx := E.abs_split r
+  -- the last entry of the timetable and the wrap-around gap
+  obtain ⟨z, hz⟩ : ∃ z, tt[n - 1]? = some z := ⟨tt[n - 1]'(by omega), List.getElem?_eq_getElem (by omega)⟩
+  have zr := E.tod_range z
+  -- the distance from the reading to the alarm
+  have key : ∃ (A : Rat) (kA : Int), A = (kA : Rat) * secPerDay + todS P a ∧ E.abs r ≤ A ∧ A ≤ E.abs r + G := by
+    by_cases hjn : j < n
+    · have e : j % n = j := Nat.mod_eq_of_lt hjn
+      rw [e] at ha
+      have q_le := b3 j a ha (le_refl _)
+      refine ⟨E.abs r + (todS P a - todS P q), E.day r, by rw [hx]; ring, by linarith, ?_⟩
+      by_cases hj0 : j = 0
+      · -- before the first entry
+        have hw := nextGap_wrap (P := P) tt (n - 1) z a hz (by rw [hj0] at ha; exact ha) (by omega)
+        have := ok.gap_hi (n - 1) (by omega)
+        rw [hd] at *
+        linarith [qr.1, zr.2]
+      · obtain ⟨y, hy⟩ : ∃ y, tt[j - 1]? = some y :=
+          ⟨tt[j - 1]'(by omega), List.getElem?_eq_getElem (by omega)⟩
+        have y_lt := b2 (j - 1) y hy (by omega)
+        have e1 : j - 1 + 1 = j := by omega
+        have hs := nextGap_step (P := P) tt (j - 1) y a hy (by rw [e1]; exact ha) (by omega)
+        have := ok.gap_hi (j - 1) (by omega)
+        linarith
+    · -- after the last entry: the first entry, tomorrow
+      have ejn : j = n := by omega
+      have e : j % n = 0 := by rw [ejn]; exact Nat.mod_self n
+      rw [e] at ha
+      have z_lt := b2 (n - 1) z hz (by omega)
+      have hw := nextGap_wrap (P := P) tt (n - 1) z a hz ha (by omega)
+      have := ok.gap_hi (n - 1) (by omega)
+      refine ⟨E.abs r + (todS P a + secPerDay - todS P q), E.day r + 1, by rw [hx]; push_cast; ring, ?_, ?_⟩
+      · rw [hd] at *; linarith [ar.1, qr.2]
+      · linarith
+  obtain ⟨A, kA, hA, hrA, hAr⟩ := key
+  refine ⟨j % n, a, A, kA, Nat.mod_lt _ hn, ha, hA, hrA, hAr, ?_⟩
+  rw [head_is_ref]
+  unfold refHead refWake
+  simp only [h2, Bool.false_eq_true, ↓reduceIte, h6, h4, h5, ← hr, ← hq, ← hj, ha]
+  have r1 := E.read_lo w
+  have r2 := E.read_hi w
+  have r3 := E.read_cost w
+  have r4 := E.read_off w
+  have c1 := E.recalc_el (P.allClients (P.dtnow w).2) r (P.dtnow w).2
+  have c2 := E.recalc_cost (P.allClients (P.dtnow w).2) r (P.dtnow w).2
+  have c3 := E.recalc_off (P.allClients (P.dtnow w).2) r (P.dtnow w).2
+  have hL := E.hL
+  have hJ := E.hJ
+  have hC := E.hC
+  have hW := E.hW
+  rw [← hr] at r1 r2
+  apply loop_wp E M _ tt n (j % n) a A G (E.off w) (E.L + E.C) (A + E.L + E.C) (A + 2 * E.L + E.W + E.C) 2 _ _ hGM
+    (by linarith) ?_ kA hA hG (by linarith) (by linarith) (by linarith) (by rw [hd] at hwin ⊢; linarith)
+  · intro L' w' hb
+    have e : (2 + 6 : Rat) = 8 := by norm_num
+    have := tail_wp E M tt n (j % n) a A G (E.off w) (A + 2 * E.L + E.W + E.C) (2 + 6) L' w' hb
+    rw [e] at this; exact this
+  · exact ⟨h1, rfl, rfl, rfl, rfl, rfl, rfl, hov, by show A - G ≤ E.abs r; linarith,
+      fun h => by omega, fun h => by omega,
+      by show E.abs r ≤ E.clk _; linarith [c3.1],
+      by show E.clk _ ≤ E.abs r + (E.L + E.C) + (E.off _ - E.off w); linarith [c3.1, r4.1],
+      by show E.clk _ ≤ A + E.L + E.C + (E.off _ - E.off w); linarith [c3.1, r4.1],
+      by linarith [c3.1, r4.1], by linarith [c3.2, r4.2]⟩
+
 end timing
 end Edzed.Cron
